@@ -209,6 +209,30 @@ func buildRoot(t *Tree) *gtree.Node {
 	return root
 }
 
+// addMirror mirrors what NewRoot/Add build from t (Add of an existing name returns the existing child).
+func addMirror(t *Tree) *Tree {
+	m := &Tree{Name: t.Name}
+	var rec func(dst *Tree, src *Tree)
+	rec = func(dst *Tree, src *Tree) {
+		for _, k := range src.Kids {
+			var c *Tree
+			for _, e := range dst.Kids {
+				if e.Name == k.Name {
+					c = e
+					break
+				}
+			}
+			if c == nil {
+				c = &Tree{Name: k.Name}
+				dst.Kids = append(dst.Kids, c)
+			}
+			rec(c, k)
+		}
+	}
+	rec(m, t)
+	return m
+}
+
 // ---------- formatted trees ----------
 
 type fnode struct {
